@@ -40,6 +40,7 @@ def universe():
     # variables wrapping expressions that derivative expansion itself rewrites (grad of a non-terminal, a nested diff)
     Vg = ufl.variable(ufl.grad(f * g))
     Vd = ufl.variable(ufl.diff(Vs**2 * g, Vs))
+    Vw = ufl.variable(Vs)  # a variable that directly labels another Variable: d/dVw holds Vs fixed elsewhere
     t = {
         "f": f,
         "g": g,
@@ -54,10 +55,11 @@ def universe():
         "Vn": Vn,
         "Vg": Vg,
         "Vd": Vd,
+        "Vw": Vw,
         "two": ufl.as_ufl(2),
     }
     U = L.Universe(t)
-    U.vars = ["Vs", "Vp", "Vv", "VT", "VA", "Vn", "Vg", "Vd", "f", "v"]
+    U.vars = ["Vs", "Vp", "Vv", "VT", "VA", "Vn", "Vg", "Vd", "Vw", "f", "v"]
     return U
 
 
@@ -192,7 +194,7 @@ def main(argv):
     l1 = level(c, 1, sample_every=40)
     c = []
     fns2 = SCALAR_FNS if not quick else ["sqrt", "exp", "ln", "sin", "abs"]
-    partners = ["Vs", "Vv", "VT", "Vn", "Vg", "Vd", "f"] if quick else ["Vs", "Vp", "Vv", "VT", "VA", "Vn", "Vg", "Vd", "f", "v", "g"]
+    partners = ["Vs", "Vv", "VT", "Vn", "Vg", "Vd", "Vw", "f"] if quick else ["Vs", "Vp", "Vv", "VT", "VA", "Vn", "Vg", "Vd", "Vw", "f", "v", "g"]
     bops = ("mul", "add", "dot", "inner") if quick else ("mul", "add", "sub", "div", "pow", "dot", "inner", "outer")
     for s in l1:
         if s.cond or s.fid:
